@@ -70,8 +70,17 @@ def _cg(e, env):
     raise Undecided("expression %s" % ntext(e)[:40])
 
 
+def int2name_total(ctx, R):
+    """Crash-only reading of the digit loop (used by C11): every pass calls chr() with an integer in range and the loop
+    variable strictly decreases while staying >= 0, for every div >= 1."""
+    return numeration(ctx, R, total=True)
+
+
+int2name_total.rule_id = "C11.INT2NAME"
+
+
 @rule("C20.NUMERATION")
-def numeration(ctx, R):
+def numeration(ctx, R, total=False):
     P = ctx.P
     f = P.func("utils.int2name")
     R.saw(f)
@@ -96,13 +105,15 @@ def numeration(ctx, R):
                         dvar, entry_c = st.targets[0].id, v.b
                 except Undecided:
                     pass
-    R.check(dvar is not None and nvar is not None and entry_c == 1, "C20.NUMERATION", f.qual + "|entry", where(f), "starts from div = i + 1 and the empty name", "int2name starts from %s = i + %s: bijective base 26 needs div = i + 1 (index 0 is 'A')" % (dvar, entry_c))
+    if not total:
+      R.check(dvar is not None and nvar is not None and entry_c == 1, "C20.NUMERATION", f.qual + "|entry", where(f), "starts from div = i + 1 and the empty name", "int2name starts from %s = i + %s: bijective base 26 needs div = i + 1 (index 0 is 'A')" % (dvar, entry_c))
     if dvar is None or nvar is None:
         return
     # guard: true for every div >= 1, false for 0
     g = ntext(w.test).replace(" ", "")
     okg = g in ("%s>0" % dvar, "%s>=1" % dvar, "%s!=0" % dvar, dvar, "0<%s" % dvar)
-    R.check(okg, "C20.NUMERATION", f.qual + "|guard", where(f, w), "loops exactly while div >= 1", "the digit loop runs while `%s`: it must run for every div >= 1 and stop at 0" % ntext(w.test))
+    if not total:
+      R.check(okg, "C20.NUMERATION", f.qual + "|guard", where(f, w), "loops exactly while div >= 1", "the digit loop runs while `%s`: it must run for every div >= 1 and stop at 0" % ntext(w.test))
     ms = {}
     for r in range(26):
         env = {dvar: Lin(26, r)}
@@ -142,6 +153,9 @@ def numeration(ctx, R):
                 else:
                     raise Undecided("statement %s" % ntext(st)[:40])
         except Undecided as e:
+            if total:
+                R.bad("C11.INT2NAME", f.qual + "|residue %d" % r, where(f, w), "the digit loop leaves the integers or the congruence domain (%s): chr() of a non-integer raises TypeError, an unbounded loop never returns" % e)
+                return
             R.bad("C20.NUMERATION", f.qual + "|residue %d" % r, where(f, w), "the digit loop is outside the congruence domain (%s): it cannot be shown to be bijective base 26" % e)
             return
         nxt = env[dvar]
@@ -153,9 +167,16 @@ def numeration(ctx, R):
         # 0 <= next < div for all q >= qmin
         ok_bound = nxt.a * qmin + nxt.b >= 0 and nxt.a >= 0 and (26 - nxt.a) >= 0 and (26 - nxt.a) * qmin + (r - nxt.b) > 0
         ms[r] = emitted.b if emitted is not None else None
+        if total:
+            ok_chr = emitted is not None and emitted.a == 0 and 0 <= emitted.b <= 0x10FFFF
+            R.check(ok_chr and ok_bound, "C11.INT2NAME", f.qual + "|div = 26q + %d" % r, where(f, w), "chr(%s) in range, next div = %r with 0 <= next < div" % (emitted, nxt),
+                    "for div = 26q + %d the loop calls chr(%s) and continues with div = %r: %s" % (r, emitted, nxt, "chr() argument out of range (ValueError)" if not ok_chr else "the loop variable does not decrease towards 0 for every q: the loop need not terminate"))
+            continue
         R.check(ok_letter and ok_next and ok_bound, "C20.NUMERATION", f.qual + "|div = 26q + %d" % r, where(f, w),
                 "emits %s (prepended), continues with %r" % (chr(65 + want_m), nxt),
                 "for div = 26q + %d the loop emits chr(%s)%s and continues with div = %r; bijective base 26 needs chr(%d) prepended and next = %r (otherwise two indices share a name or the order breaks, e.g. Z and AA)" % (r, emitted, "" if prepend else " appended", nxt, 65 + want_m, want_next))
+    if total:
+        return
     R.check(len(set(ms.values())) == 26, "C20.NUMERATION", f.qual + "|letter determines residue", where(f, w), "26 distinct letters for 26 residues", "two residues emit the same letter: %s" % ms)
     rets = [n for n in f.node.body[f.node.body.index(w) + 1:] if isinstance(n, ast.Return)]
     R.check(len(rets) == 1 and ntext(rets[0].value) == nvar, "C20.NUMERATION", f.qual + "|result", where(f), "returns the assembled name", "int2name returns `%s`" % (ntext(rets[0].value) if rets else None))
